@@ -316,12 +316,27 @@ def run_stream(cfg, d, i, fault, style, seed=0):
     gate = {}
 
     async def consume(rd):
-        if style == 'busy':
+        how = style.split('-')[1] if '-' in style else 'read'
+        if style.startswith('busy'):
             gate['ev'] = asyncio.Event()
             await gate['ev'].wait()
         while True:
             try:
-                data = await rd.read(1 << 16)
+                if how == 'read':
+                    data = await rd.read(1 << 16)
+                elif how == 'readline':
+                    data = await rd.readline()
+                elif how == 'readuntil':
+                    data = await rd.readuntil(b'\n')
+                else:
+                    data = await rd.readexactly(7)
+            except asyncio.IncompleteReadError as exc:
+                # the documented way to hand over what arrived before the end: the end itself comes next
+                if exc.partial:
+                    results.append(('data', exc.partial))
+                    continue
+                results.append(('eof',))
+                return
             except Exception as exc:        # pylint: disable=broad-except
                 results.append(('exc', type(exc).__name__))
                 return
@@ -388,6 +403,7 @@ def run_stream(cfg, d, i, fault, style, seed=0):
         if 'ev' in gate:
             gate['ev'].set()
         loop.quiesce()
+        loop.quiesce()
         return {'results': results, 'applied': ed.applied, 'data_before': ed.data_before, 'msgs': msgs,
                 'loop_exc': [repr(c.get('exception') or c.get('message'))[:200] for c in loop.unretrieved()]}
     finally:
@@ -407,7 +423,7 @@ def stream_worker(job):
         for i in sorted({data_idx[0], data_idx[len(data_idx) // 2], data_idx[-1]}):
             lab, ln = layout[i]
             for fault in [('flip', 0, 7), ('flip', ln // 2, 1), ('flip', -1, 0), ('trunc', ln - 1), ('drop',), ('insert', 1), ('replace-other',)]:
-                for style in ('blocked', 'busy'):
+                for style in ('blocked', 'busy', 'blocked-readline', 'busy-readline', 'busy-readuntil', 'blocked-readexactly', 'busy-readexactly'):
                     try:
                         obs = run_stream(cfg, d, i, fault, style)
                     except Livelock as exc:
